@@ -1722,8 +1722,12 @@ impl CodegenContext {
     /// address) says nothing about the program.
     fn analyse_untaken_branch(&mut self, block: &Block) {
         let scope = Identifier::new(format!("$untaken_{}", block.lparen.span.low().as_usize()));
+        // (That includes what is not found: a name may well be defined only when the branch is taken. And 'super' is one
+        // scope off in here.)
+        let undefined = std::mem::take(&mut self.undefined);
         let _ = self
             .with_dummy_segment(|s| s.with_scope(&scope, None, |s| s.emit_tokens(&block.inner)));
+        self.undefined = undefined;
     }
 
     fn with_dummy_segment<F: FnOnce(&mut Self) -> CoreResult<()>>(
